@@ -21,7 +21,7 @@ def runScanCase (line : String) : String × String :=
   let data := dataField (field fs "d")
   let off := fieldNat fs "off"
   let bl := fieldNat fs "bl"
-  let pat := unhex (field fs "p")
+  let pat := dataField (field fs "p")
   let v0 := View.init data false
   let want := max (min bl data.length) 1
   let v0 := if bl > 0 then v0.demand (want - 1) else v0
